@@ -72,6 +72,11 @@ def run_rules(P, rule_ids, env=None):
             fn(ctx)
         except AnalysisError as e:
             err = str(e)
+        except (IndexError, KeyError, TypeError, ValueError, AttributeError, StopIteration) as e:
+            # a rule that trips over a shape it did not expect has not decided anything
+            import traceback
+            tb = traceback.extract_tb(e.__traceback__)[-1]
+            err = "%s: idiom not recognised (the rule could not read the code: %s at %s:%d)" % (rid, type(e).__name__, tb.filename.split("/")[-1], tb.lineno)
         if err is None and getattr(ctx, "open_obligations", None):
             k, m, site = ctx.open_obligations[0]
             err = "%s: %d open panic obligation(s), e.g. %s at %s: %s" % (rid, len(ctx.open_obligations), k, site, m)
